@@ -91,7 +91,7 @@ CLAIMED = {
    design="§5 C10"),
  "C11": dict(
    text="Theorems (Props/C11.lean) over a transcription of get_components / remove_components / get_point_index: the selected component carries exactly the requested names, the i-th selected point is the source point "
-        "offset + index-of-name, every requested name exists, colours and format are kept (select_component); the limbs of the selection connect the same NAMED points as before and lie within the new point list (select_limbs_names); "
+        "offset + index-of-name, every requested name exists, colours and format are kept (select_component); the limbs of the selection connect the same NAMED points as before and lie within the new point list (select_limbs_names); end to end on the pose (getComponents_values, removeComponents_values, from getPoints_cell): point i of the selected body carries, for every frame and person, the coordinates, confidence and missing flags of source point ixs[i], ixs being the index list the header-level theorems characterise name by name; "
         "get_point_index of the first component with a name is its running offset plus the index of the point (pointIndex_go); removing components / points is by definition selecting the complement, absent names ignored "
         "(remove_eq_select_complement, remove_points_eq_select). The real calls are run on generated multi-component poses and compared with the model and, point by point and limb by limb by NAME, with the source; the known-format helpers "
         "(hide / remove legs, wrist correction, holistic reduction) are checked on OpenPose and Holistic-shaped headers on the implementation (only the named points change) and against their Lean model (Model/Helpers.lean: hidePoints_other / hidePoints_hidden — hiding changes exactly the named points, which become zeros with confidence 0 and, as numpy does for a plain assignment, unflagged; mem_namedIndexes; correctWrist_other / correctWrist_at — only the body wrist changes, taking the hand wrist's values where that is observed; remove-legs and holistic reduction are the selection calls of the theorems above). Partial: which names belong to which format are the library's tables, read by the harness.",
@@ -113,7 +113,7 @@ CLAIMED = {
         "(normalize_similarity_invariant) — via the lift lemma cellVals_mapCoords (a coordinate-wise map of a well-formed body maps every observed column value and nothing else). Distribution normaliser: per column mean 0 "
         "(distribution_mean_zero), deviation 1 (distribution_std_one), unnormalize restores (unnormalize_inverse), and on the body for axes (0, 1): every column with a non-zero deviation has mean 0 and deviation 1 afterwards, confidences and mask unchanged (normalizeDistribution_post). 3-D plane / line normaliser, per frame and person: first line point at the origin (line_p1_at_origin); plane "
         "points at z = 0 when the first line point is a plane point (plane_at_z0_partial — the unconditional statement is known finding K3); the line on the negative-Y half-plane with 3-D length = size (line_on_negative_y); "
-        "translation and uniform-scale invariance (normalize3D_translation_invariant, normalize3D_scale_invariant); and the NEGATION of rotation invariance with an exact witness (not_rotation_invariant: z = −1/15 vs −1/25 "
+        "translation and uniform-scale invariance (normalize3D_translation_invariant, normalize3D_scale_invariant); every frame and person is normalised on its own (normalize3DBody_independent); and the NEGATION of rotation invariance with an exact witness (not_rotation_invariant: z = −1/15 vs −1/25 "
         "after a 90° turn about Z) — known finding K2, replayed on the implementation on every run. Partial: float rounding; arctan2 / Rotation.from_euler modelled by cos θ = −v_y / r, sin θ = v_x / r (the model agrees with scipy "
         "on every generated case); (the distribution theorems are lifted to the body for both axis choices: normalizeDistribution_post for axes (0, 1), normalizeDistribution_post_all for axes (0, 1, 2)). All three normalisers are run on NumPy (and tensorflow for the first two) poses and "
         "compared with the postconditions, the invariances and the model.",
